@@ -1,5 +1,5 @@
 (* Dispatch.v — one entry point for the extracted binary and for vm_compute: request tree -> reply tree. *)
-From DV Require Export Model.Tree Model.Reader Model.Iflr Model.EflrReader.
+From DV Require Export Model.Tree Model.Reader Model.Iflr Model.EflrReader Model.Data Model.FileReader Model.ApiDispatch.
 
 Definition t_lrec (r : lrec) : tree := TL [t_bool (lr_eflr r); TI (lr_type r); TB (lr_body r)].
 Definition as_lrec (t : tree) : option lrec :=
@@ -224,5 +224,19 @@ Definition dispatch (t : tree) : tree :=
   | TL [TI 23; TB bs] => t_opt t_dset (dec_set bs)                       (* strict component reader *)
   | TL [TI 24; o; TI seqnum; TB hid] =>
       match as_obname o with Some o' => t_res TB (enc_fileheader o' seqnum hid) | None => t_bad end
+  | TL [TI 30; ud; ue; cast; TI src; TL shape] =>              (* channel descriptors from data *)
+      let as_optl t := match t with TL [] => Some None | TL [TL l] => match map_opt as_int l with Some l' => Some (Some l') | None => None end | _ => None end in
+      match as_optl ud, as_optl ue, as_optint cast, map_opt as_int shape with
+      | Some ud', Some ue', Some cast', Some shape' =>
+          t_res (fun '(c, d, e) => TL [TI c; t_list TI d; t_list TI e]) (channel_setup ud' ue' cast' src shape')
+      | _, _, _, _ => t_bad
+      end
+  | TL [TI 25; TI seq; TI vrl; TB ident; TB bs] =>             (* complete strict reader *)
+      t_opt (t_list (fun r => match r with
+                              | LR_E ty d => TL [TI 1; TI ty; t_dset d]
+                              | LR_I ty b => TL [TI 0; TI ty; TB b]
+                              end))
+            (read_logical {| sul_seq := seq; sul_vrl := vrl; sul_id := ident |} bs)
+  | TL [TI 40; TL steps] => TL (run_program p_init b_init steps)         (* a program over the public API *)
   | _ => t_bad
   end.
